@@ -15,7 +15,7 @@ def witness(label, data, names=None, **kw):
     return w
 
 
-def run(ctx, oracle, deep_need=None, use=("exh", "rand", "nat", "voc", "perop"), want_exec=True):
+def run(ctx, oracle, deep_need=None, use=("exh", "rand", "nat", "voc", "perop", "torch"), want_exec=True):
     t = TIERS[ctx.tier]
     agg = ctx.agg
 
@@ -49,6 +49,12 @@ def run(ctx, oracle, deep_need=None, use=("exh", "rand", "nat", "voc", "perop"),
     if "nat" in use:
         for label, data in workload.natural(ctx, t["nat"]):
             one(label, data)
+    if "torch" in use and ctx.shard == ctx.nshards - 1:
+        try:
+            for label, data in workload.torch_pickles(ctx, {"quick": 4, "thorough": 60}[ctx.tier]):
+                one(label, data)
+        except ImportError as e:
+            agg.notes.append({"torch_corpus_unavailable": repr(e)[:120]})
     if "rand" in use:
         for label, prog, data in workload.random_long(ctx, t["rand"]):
             one(label, data, asm.names(prog))
